@@ -948,6 +948,10 @@ func (lcp *LCPStateMachine) timeout() {
 			lcp.sendTerminateRequest("Timeout")
 		case LCPStateReqSent, LCPStateAckRcvd, LCPStateAckSent:
 			lcp.sendConfigureRequest()
+			if lcp.state == LCPStateAckRcvd {
+				// the new request is unacknowledged: back to Req-Sent (RFC 1661: TO+ in Ack-Rcvd -> scr/Req-Sent)
+				lcp.setState(LCPStateReqSent)
+			}
 		}
 	} else {
 		// Timeout with restart counter expired
